@@ -246,6 +246,21 @@ def compare_table(read, name, mnems, kept, expect_value, last_block_pos):
         if len(cells) != len(er):
             other.append('row %d has %d cells, expected %d' % (ri, len(cells), len(er)))
             continue
+        # the mnemonic index: a row asked for by the value of its MNEM cell is a row of the table that holds that value there
+        # (when several kept rows hold it, any of them; never a dropped duplicate's successor, never an error)
+        for ci, (ec, cell) in enumerate(zip(er, cells)):
+            if mnems[ci] == b'MNEM' and type(ec[0]) is bytes and ec[0]:
+                from TotalDepth.LIS.core import Mnem as _Mnem
+                try:
+                    key = _Mnem.Mnem(ec[0])
+                    hit = read.retRowByMnem(key)
+                    fine = any(hit is r for r in got_rows) and any(c.mnem == b'MNEM' and type(c.value) is bytes and _Mnem.Mnem(c.value) == key for c in hit.genCells())
+                    what = 'row %d' % [i for i, r in enumerate(got_rows) if r is hit][0] if any(hit is r for r in got_rows) else repr(hit)[:80]
+                except Exception as e:  # noqa
+                    fine, what = False, '%s: %s' % (type(e).__name__, str(e)[:100])
+                if not fine:
+                    other.append('retRowByMnem(%r) (the MNEM cell of kept row %d) gives %s, which does not hold that mnemonic' % (ec[0], ri, what))
+                break
         for ci, (ec, cell) in enumerate(zip(er, cells)):
             v, u = ec
             is_last = (ri, ci) == last_block_pos
